@@ -809,6 +809,76 @@ def translate_paths():
     meta["join_circuit"] = "hop = Peer(node_public_key, previous_node_address); socket starts closed"
     srcs_c.append(jc)
 
+    # --- the hand-modelled pieces around the translated methods: their statement lists (docstrings, comments and logging
+    #     ignored) must be what Model.lean's `pickAddr`, `sockStep .outside/.open4/.open6` and `joinStep` were written from
+    def stmts(fn):
+        """statement texts with docstrings / logging dropped and local variable names made canonical (v0, v1, … in order of
+        first binding), so that renamed locals and lambda parameters do not matter"""
+        import copy
+        fn = copy.deepcopy(fn)
+        params = {a.arg for a in fn.args.args}
+        names = {}
+        for n in ast.walk(fn):
+            if isinstance(n, ast.Name) and isinstance(n.ctx, ast.Store) and n.id not in params and n.id not in names:
+                names[n.id] = f"v{len(names)}"
+            if isinstance(n, ast.Lambda):
+                for a in n.args.args:
+                    if a.arg not in names:
+                        names[a.arg] = f"v{len(names)}"
+        for n in ast.walk(fn):
+            if isinstance(n, ast.Name) and n.id in names:
+                n.id = names[n.id]
+            if isinstance(n, ast.arg) and n.arg in names:
+                n.arg = names[n.arg]
+            if isinstance(n, (ast.FunctionDef, ast.AsyncFunctionDef)) and n is not fn and n.name in names:
+                n.name = names[n.name]
+        out_ = []
+        for x in fn.body:
+            if isinstance(x, ast.Expr) and (isinstance(x.value, ast.Constant) or ast.unparse(x.value).startswith("self.logger.")):
+                continue
+            out_.append(ast.unparse(x))
+        return out_
+
+    def expect(fn, want, what):
+        got = stmts(fn)
+        if got != want:
+            raise TranslatorError(f"{SRC}:{fn.lineno}: {fn.name} is no longer what the model's `{what}` mirrors: {got}")
+    rs = [f for f in sock.body if isinstance(f, ast.AsyncFunctionDef) and f.name == "resolve"]
+    if len(rs) != 1:
+        raise TranslatorError(f"{SRC}: TunnelExitSocket.resolve not found")
+    expect(rs[0], ["v0 = await get_running_loop().getaddrinfo(address[0], 0)", "v0.sort(key=lambda v3: v3[0])",
+                   "v1 = v0[0][-1][0]", "v2 = v0[0][0]",
+                   "if v2 == socket.AF_INET6:\n    return UDPv6Address(v1, address[1])", "return UDPv4Address(v1, address[1])"],
+           "pickAddr")
+    expect(_method(sock, "datagram_received_ipv4", ["self", "data", "source"], SRC),
+           ["self.datagram_received(data, UDPv4Address(*source))"], "sockStep .outside (IPv4)")
+    w6 = _method(sock, "datagram_received_ipv6", ["self", "data", "source"], SRC)
+    got6 = stmts(w6)
+    if len(got6) != 2 or not got6[0].startswith("if source[0][:7] == '::ffff:':") or not got6[0].rstrip().endswith("return") \
+            or got6[1] != "self.datagram_received(data, UDPv6Address(*source[:2]))":
+        raise TranslatorError(f"{SRC}:{w6.lineno}: datagram_received_ipv6 is no longer what the model's `sockStep .outside (IPv6)` mirrors: {got6}")
+    en_body = stmts(en)
+    ct = [x for x in ast.walk(en) if isinstance(x, ast.AsyncFunctionDef) and x.name == "create_transports"]
+    if len(en_body) != 1 or not en_body[0].startswith("if not self.enabled:\n    self.enabled = True\n") \
+            or not en_body[0].rstrip().endswith("self.register_task('create_transports', create_transports)") or len(ct) != 1:
+        raise TranslatorError(f"{SRC}:{en.lineno}: enable() is no longer `if not self.enabled: self.enabled = True; …; register_task(create_transports)`")
+    expect(ct[0], ["self.transport_ipv4 = await TunnelProtocol(self.datagram_received_ipv4, ('0.0.0.0', 0)).open()",
+                   "self.transport_ipv6 = await TunnelProtocol(self.datagram_received_ipv6, ('::', 0)).open()",
+                   "while self.queue:\n    self.sendto(*self.queue.popleft())"], "sockStep .open4/.open6 + flush")
+    tp = find_class(ast.parse(es_src), "TunnelProtocol")
+    dr = _method(tp, "datagram_received", ["self", "data", "addr"], SRC)
+    expect(dr, ["self.received_cb(data, addr)"], "TunnelProtocol.datagram_received -> received_cb")
+    guards = [ast.unparse(x.test) for x in oc_[0].body if isinstance(x, ast.If) and x.body and isinstance(x.body[-1], ast.Return)]
+    if "not self.settings.peer_flags" not in guards or not any(
+            "payload.circuit_id in self.circuits" in g and "payload.circuit_id in self.exit_sockets" in g for g in guards):
+        raise TranslatorError(f"{COMM}:{oc_[0].lineno}: on_create lost a guard the model's `joinStep` mirrors (no peer flags / circuit id in use): {guards}")
+    pos = [i for i, x in enumerate(oc_[0].body) if "self.join_circuit(payload, source_address)" in ast.unparse(x)]
+    gpos = [i for i, x in enumerate(oc_[0].body) if isinstance(x, ast.If) and x.body and isinstance(x.body[-1], ast.Return)]
+    if not pos or not gpos or min(pos) < max(gpos):
+        raise TranslatorError(f"{COMM}:{oc_[0].lineno}: on_create calls join_circuit before its guards")
+    meta["hand_modelled_shapes_checked"] = ["resolve", "datagram_received_ipv4", "datagram_received_ipv6", "enable/create_transports",
+                                            "TunnelProtocol.datagram_received", "on_create guards"]
+
     txt = "".join(ast.get_source_segment(es_src, f) or "" for f in srcs) + "".join(ast.get_source_segment(cm_src, f) or "" for f in srcs_c)
     head = ("/-\n  GENERATED by tools/gen_exitpolicy.py (part 2) from exit_socket.py and community.py — do not edit.\n"
             f"  sha1 of the translated method sources: {hashlib.sha1(txt.encode()).hexdigest()[:16]}\n"
